@@ -1,0 +1,82 @@
+//go:build verif
+
+// Contracts for the verification machinery in /verif (comment only, no code).
+// Language: /verif/DESIGN.md section 3.1.
+//
+// The tracker tree is walked downwards along the queue path (hierarchy). Every function is specified for the
+// level it runs on; the recursion obligation says the call on the child named by the next path element gets the
+// remaining path and the same application, usage and flags. By induction over the path, every tracker on the
+// path is updated by exactly the same amount.
+package ugm
+
+// ownership (unchecked, reported): the usage / limit resource objects of one tracker are not shared with another
+// tracker, and the recursive call on a child does not reach back to this tracker (the tracker tree is a tree)
+//@ unique QueueTracker.runningApplications props C05
+//@ unique QueueTracker.childQueueTrackers props C05
+//@ global forall a *QueueTracker, b *QueueTracker :: a != b && a.resourceUsage != nil ==> a.resourceUsage != b.resourceUsage && a.resourceUsage != b.maxResources
+//@ global forall a *QueueTracker :: a.resourceUsage == nil || a.resourceUsage != a.maxResources
+//@ global forall a *resources.Resource, b *resources.Resource :: a != b && a.Resources != nil ==> a.Resources != b.Resources
+//@ global forall a *QueueTracker :: a.runningApplications != nil && a.childQueueTrackers != nil
+
+//@ spec suffix1(s []string, h []string) bool = len(s) == len(h) - 1 && (forall j int :: 0 <= j && j < len(s) ==> s[j] == h[j + 1])
+
+//@ func newQueueTracker(queuePath string, queueName string, trackType trackingType) (qt *QueueTracker)
+//@   props C05
+//@   trusted "constructor: fresh tracker with empty usage; limits copied from the wild-card configuration (reads the manager)"
+//@   assigns nothing
+//@   ensures fresh(qt) && qt.resourceUsage == nil && qt.runningApplications != nil && fresh(qt.runningApplications) && qt.childQueueTrackers != nil && fresh(qt.childQueueTrackers) && (forall a string :: !(a in qt.runningApplications)) && (forall c string :: !(c in qt.childQueueTrackers))
+
+// usage grows by exactly `usage` on this tracker, the application is recorded as running here, and the same request
+// goes down to the child named by the next path element
+//@ func (qt *QueueTracker) increaseTrackedResource(hierarchy []string, applicationID string, trackType trackingType, usage *resources.Resource)
+//@   props C05 C03
+//@   mode nopanic=off
+//@   holds qt.resourceUsage == nil || (qt.resourceUsage != usage && qt.resourceUsage.Resources != nil && (usage == nil || qt.resourceUsage.Resources != usage.Resources))
+//@   ensures[usage] forall t Key :: rv(qt.resourceUsage, t) == clamp64(old(rv(qt.resourceUsage, t)) + rv(usage, t))
+//@   ensures[running] qt.runningApplications[applicationID]
+//@   ensures[limits] qt.maxResources == old(qt.maxResources) && qt.maxRunningApps == old(qt.maxRunningApps)
+//@   at[down] call ugm.QueueTracker.increaseTrackedResource#1: assert arg0 == qt.childQueueTrackers[hierarchy[1]] && arg0 != nil && suffix1(arg1, hierarchy) && arg2 == applicationID && arg3 == trackType && arg4 == usage
+//@   at[tree] call ugm.QueueTracker.increaseTrackedResource#1 after: assume qt.resourceUsage == old(qt.resourceUsage) && unch(qt.resourceUsage) && unch(usage) && qt.maxResources == old(qt.maxResources) && qt.maxRunningApps == old(qt.maxRunningApps) && qt.runningApplications == old(qt.runningApplications)
+
+// usage shrinks by exactly `usage` on this tracker; the tracker may only be dropped when it is completely idle AND
+// carries no limit of either kind
+//@ func (qt *QueueTracker) decreaseTrackedResource(hierarchy []string, applicationID string, usage *resources.Resource, removeApp bool) (removeQT bool)
+//@   props C05 C03
+//@   mode nopanic=off
+//@   holds qt.resourceUsage == nil || (qt.resourceUsage != usage && qt.resourceUsage.Resources != nil && (usage == nil || qt.resourceUsage.Resources != usage.Resources))
+//@   ensures[usage] qt.resourceUsage != nil && !(len(hierarchy) > 1 && old(qt.childQueueTrackers[hierarchy[1]]) == nil) ==> (forall t Key :: rv(qt.resourceUsage, t) == (has(usage, t) ? clamp64(old(rv(qt.resourceUsage, t)) - rv(usage, t)) : old(rv(qt.resourceUsage, t))))
+//@   ensures[app] !(len(hierarchy) > 1 && old(qt.childQueueTrackers[hierarchy[1]]) == nil) && removeApp ==> !(applicationID in qt.runningApplications)
+//@   ensures[keeplimits] removeQT ==> qt.maxRunningApps == 0 && (forall t Key :: rv(qt.maxResources, t) == 0)
+//@   ensures[idle] removeQT ==> len(qt.childQueueTrackers) == 0 && len(qt.runningApplications) == 0 && (forall t Key :: rv(qt.resourceUsage, t) == 0)
+//@   ensures[limits] qt.maxResources == old(qt.maxResources) && qt.maxRunningApps == old(qt.maxRunningApps)
+//@   at[down] call ugm.QueueTracker.decreaseTrackedResource#1: assert arg0 == qt.childQueueTrackers[hierarchy[1]] && arg0 != nil && suffix1(arg1, hierarchy) && arg2 == applicationID && arg3 == usage && arg4 == removeApp
+//@   at[tree] call ugm.QueueTracker.decreaseTrackedResource#1 after: assume qt.resourceUsage == old(qt.resourceUsage) && unch(qt.resourceUsage) && unch(usage) && qt.maxResources == old(qt.maxResources) && unch(qt.maxResources) && qt.maxRunningApps == old(qt.maxRunningApps) && qt.runningApplications == old(qt.runningApplications) && (forall a string :: (a in qt.runningApplications) == old(a in qt.runningApplications))
+
+// the headroom is never looser than what this tracker's own limit leaves, nor than the child's answer
+//@ func (qt *QueueTracker) headroom(hierarchy []string, trackType trackingType) (hr *resources.Resource)
+//@   props C05
+//@   mode nopanic=off
+//@   ensures[own] !(forall t Key :: rv(qt.maxResources, t) == 0) ==> (forall t Key :: has(qt.maxResources, t) ==> has(hr, t) && rv(hr, t) <= clamp64(rv(qt.maxResources, t) - rv(qt.resourceUsage, t)))
+//@   at[down] call ugm.QueueTracker.headroom#1: assert arg0 == qt.childQueueTrackers[hierarchy[1]] && arg0 != nil && suffix1(arg1, hierarchy) && arg2 == trackType
+//@   at[child] call ugm.QueueTracker.headroom#1 after: assume qt.maxResources == old(qt.maxResources) && unch(qt.maxResources) && qt.resourceUsage == old(qt.resourceUsage) && unch(qt.resourceUsage) && childhr(qt) == ret
+//@   ensures[child] len(hierarchy) > 1 ==> (forall t Key :: has(childhr(qt), t) ==> has(hr, t) && rv(hr, t) <= rv(childhr(qt), t))
+//@ spec abstract childhr(q *QueueTracker) *resources.Resource
+
+// an application not yet tracked here is admitted only if this tracker has no application limit or still has room,
+// and only if the child named by the path admitted it
+//@ func (qt *QueueTracker) canRunApp(hierarchy []string, applicationID string, trackType trackingType) (ok bool)
+//@   props C05
+//@   mode nopanic=off
+//@   ensures[room] ok ==> qt.runningApplications[applicationID] || qt.maxRunningApps == 0 || len(qt.runningApplications) + 1 <= qt.maxRunningApps
+//@   at[down] call ugm.QueueTracker.canRunApp#1: assert arg0 == qt.childQueueTrackers[hierarchy[1]] && arg0 != nil && suffix1(arg1, hierarchy) && arg2 == applicationID && arg3 == trackType
+//@   at[child] call ugm.QueueTracker.canRunApp#1 after: assume (ret ==> childadmits(qt)) && qt.runningApplications == old(qt.runningApplications) && (forall a string :: (a in qt.runningApplications) == old(a in qt.runningApplications) && qt.runningApplications[a] == old(qt.runningApplications[a])) && qt.maxRunningApps == old(qt.maxRunningApps)
+//@   ensures[child] ok && len(hierarchy) > 1 ==> childadmits(qt)
+//@ spec abstract childadmits(q *QueueTracker) bool
+
+// a limit is set exactly on the tracker the path ends at; a named limit is never overwritten by a wild-card one
+//@ func (qt *QueueTracker) setLimit(hierarchy []string, maxResource *resources.Resource, maxApps uint64, useWildCard bool, trackType trackingType, doWildCardCheck bool)
+//@   props C05
+//@   mode nopanic=off
+//@   ensures[leaf] len(hierarchy) == 1 && !(doWildCardCheck && !old(qt.useWildCard)) ==> qt.maxRunningApps == maxApps && qt.maxResources == maxResource && qt.useWildCard == useWildCard
+//@   ensures[named] len(hierarchy) == 1 && doWildCardCheck && !old(qt.useWildCard) ==> qt.maxRunningApps == old(qt.maxRunningApps) && qt.maxResources == old(qt.maxResources) && !qt.useWildCard
+//@   at[down] call ugm.QueueTracker.setLimit#1: assert arg0 == qt.childQueueTrackers[hierarchy[1]] && arg0 != nil && suffix1(arg1, hierarchy) && arg2 == maxResource && arg3 == maxApps && arg4 == useWildCard && arg5 == trackType && arg6 == doWildCardCheck
